@@ -253,10 +253,22 @@ def run(out, tier, model_ok=True):
                            f'assignments is {want} (difference {r["count"] - want})')
     out.count((json.dumps(counts, sort_keys=True), json.dumps(case['setting'], sort_keys=True)))
   out.extra.update({'large_vectors': len(big_jobs), 'large_vectors_above_2^53': n_big_over})
+  # "upper bound on the designs the exhaustive search evaluates": on real panels (the search engine's instances) the
+  # number of designs pushed to the result queue never exceeds the count reported beforehand
+  res = se.get_results(tier, model_ok=model_ok)
+  n_bound = 0
+  for r in se.iter_results(res):
+    e = r['exh']
+    if 'count' in e and 'result' in e:
+      n_bound += 1
+      if len(e.get('pushlog', [])) > e['count']:
+        out.oracle_violation({'call': 'exhaustive_search', 'symptom': 'count-exceeded'}, se.case_of(r, 'exh'),
+                             f'exhaustive search evaluated {len(e["pushlog"])} designs, count_max_designs said at most {e["count"]}')
+  out.extra['search_instances_count_bound_checked'] = n_bound
   out.rule = ('all multisets of the six admitted eligibility classes with <= %d geos (class positions shuffled), each under %d '
               'size-range / geo-ratio settings (quick: a sample of 3 settings at the largest size; thorough: all settings up to 5 geos, 10 at 6, 3 at 7); compared: count_max_designs, '
               'length and distinctness of the generator listing, brute-force count of legal assignments, and the Lean model '
-              '(count, listing order); plus large class vectors (20-60 geos, counts up to 3^60) compared with the exact number of legal assignments; non-trivial = positive count; distinct by (class vector, setting)' % (max_n, len(settings)))
+              '(count, listing order); plus large class vectors (20-60 geos, counts up to 3^60) compared with the exact number of legal assignments; on the search engine\'s panels, designs evaluated <= count; non-trivial = positive count; distinct by (class vector, setting)' % (max_n, len(settings)))
   out.extra.update({'cases': len(jobs), 'max_geos': max_n, 'settings': len(settings),
                     'exhaustive': True, 'positive_counts': len(out.nontrivial)})
   out.sample({'classes': jobs[len(jobs) // 2][0], 'setting': str(jobs[len(jobs) // 2][1]), 'result': {k: v for k, v in reals[len(jobs) // 2].items() if k != 'pairs'}})
